@@ -125,17 +125,8 @@ theorem cont_not_decl (l : Str) (h : isCont l = true) : isDecl l = false := by
 
 /-- a continuation line is not blank -/
 theorem cont_not_blank (l : Str) (h : isCont l = true) : isBlank l = false := by
-  simp only [isCont, Bool.and_eq_true] at h
-  obtain ⟨c, r, hr, hc⟩ : ∃ c r, dropBlanksTabs l = c :: r ∧ isSpace c = false := by
-    cases hd : dropBlanksTabs l with
-    | nil => rw [hd] at h; simp [headP] at h
-    | cons c r => rw [hd] at h; exact ⟨c, r, rfl, by simpa [headP] using h.2⟩
-  have hm : c ∈ l := mem_dropBlanksTabs (by rw [hr]; simp)
-  cases hb : isBlank l with
-  | false => rfl
-  | true =>
-    have := List.all_eq_true.mp hb c hm
-    rw [hc] at this; cases this
+  simp only [isCont, Bool.and_eq_true, Bool.not_eq_true'] at h
+  exact h.2
 
 /-! ### one step of the loop -/
 
